@@ -93,6 +93,54 @@ def _other_environment() -> Any:
 UNTYPED = ["$.c[?$.r[*] == $.r[*]]", "$.c[?$.c[*].a >= $.c[*].a]", "$..[?$..a != $..a]", "$.c[?_.v == _.v && $.c[*] == $.c[*]]", "$.c[?$.c[*].a == @.a]"]
 
 
+HISTORY_QUERIES = ["$.c[?match(@.s, $.pat)]", "$.c[?search(@.s, $.pat)]", "$.c[?match(@.s, @.p)]", "$.c[?search(@.s, 'b(') || match(@.s, 'a.')]"]
+HISTORY_DOCS = [{"pat": "a.", "c": [{"s": "ab", "p": "a."}, {"s": "ac", "p": "a("}, {"s": "b(", "p": 1}, {"s": "ad", "p": "a("}]},
+                {"pat": "a(", "c": [{"s": "ab", "p": "a("}, {"s": "a(", "p": "a."}, {"s": "ac", "p": "a("}]},
+                {"pat": 7, "c": [{"s": "ab", "p": None}, {"s": "7", "p": "7"}, {"s": "ac", "p": ["a."]}]}]
+
+
+def history_differential(_n: int) -> List[Tuple[str, Dict[str, Any], str]]:
+    """Patterns taken from the document (valid, invalid, not a string) are outside the specification's regular-expression
+    dialect, so these evaluations are compared only with themselves: what a compiled query gives on a document in a fresh
+    environment it also gives after the same environment has evaluated the other documents, in any order, caching on or off."""
+    import copy
+    import itertools
+
+    import jsonpath
+
+    out = []
+    for text in HISTORY_QUERIES:
+        fresh = []
+        for d in HISTORY_DOCS:
+            try:
+                fresh.append(("ok", [tuple(m.parts) for m in jsonpath.JSONPathEnvironment().finditer(text, copy.deepcopy(d))]))
+            except BaseException as e:  # noqa: BLE001
+                fresh.append(("err:" + exc_family(e), None))
+        for caching in (True, False):
+            for order in itertools.permutations(range(len(HISTORY_DOCS))):
+                env = jsonpath.JSONPathEnvironment(filter_caching=caching)
+                try:
+                    path = env.compile(text)
+                except BaseException:  # noqa: BLE001
+                    break
+                for i in order + order:
+                    try:
+                        got = ("ok", [tuple(m.parts) for m in path.finditer(copy.deepcopy(HISTORY_DOCS[i]))])
+                    except BaseException as e:  # noqa: BLE001
+                        got = ("err:" + exc_family(e), None)
+                    if got != fresh[i]:
+                        out.append((f"history:result-depends-on-earlier-evaluations|{text}", {"query": text, "order": list(order), "document": i, "filter_caching": caching,
+                                                                                       "fresh_environment": str(fresh[i])[:200], "used_environment": str(got)[:200]}, "depends on history"))
+                        break
+                else:
+                    continue
+                break
+            else:
+                continue
+            break
+    return out
+
+
 def untyped_differential(_n: int) -> List[Tuple[str, Dict[str, Any], str]]:
     """Queries only an environment without type checks accepts (comparisons of non-singular queries): the specification
     gives them no meaning, so they are compared only with themselves - filter caching on against off."""
@@ -185,7 +233,7 @@ def _replay(rec: Dict[str, Any]) -> List[Tuple[str, Dict[str, Any], str]]:
                                     v["touched-by-caller"] = True
                 elif h["act"] == "recompile":
                     _other_environment()
-                    p2 = env.compile(text)
+                    p2 = env.compile("".join(list(text)))      # an equal text, another string object
                     if not (p2 == path) or hash(p2) != hash(path) or str(p2) != str(path):
                         disc = "recompiled-query-not-equal"
                     path = p2
@@ -272,6 +320,10 @@ def run(chk: Check, tier: str, seed: int) -> None:
         for sig, case, what in res:
             chk.violation(sig, case, what)
     chk.extra["untyped_queries_compared_caching_on_off"] = len(UNTYPED)
+    for res in core.pmap(history_differential, [0]):
+        for sig, case, what in res:
+            chk.violation(sig, case, what)
+    chk.extra["document_supplied_pattern_queries_compared_across_histories"] = len(HISTORY_QUERIES)
     # ---- code -> specification: the hook events of every history validated by TLC (Trace_Cache.tla)
     if traces:
         sc = core.scratch()
